@@ -18,7 +18,7 @@ RULE = (
     "go to a fresh temp dir. write_hif/read_hif (all classes) and write_json/read_json (undirected, string-castable "
     "labels) must give back class, nodes, edges, members or tail/head and all three attribute levels; the edge-list, "
     "bipartite edge-list (also dual) and incidence-matrix text formats must give back the same incidences under the "
-    "documented casts, down to 1x1 / 1xm / nx1 matrices; HIF and JSON collections (list and dict) read back key by key. "
+    "documented casts (int, explicit str, or none), down to 1x1 / 1xm / nx1 matrices; HIF and JSON collections (list and dict) read back key by key. "
     "non-trivial = the file has >=2 records and (HIF/JSON) an attribute, isolated node or empty edge"
 )
 BUDGET = {"quick": 900, "thorough": 25000}
